@@ -70,6 +70,7 @@ def part_main(argv: List[str]) -> int:
     ap.add_argument("--wall", type=float, default=120.0)
     ap.add_argument("--out", required=True)
     ap.add_argument("--plans", default="")  # file with explicit plans (replay/minimise)
+    ap.add_argument("--first", type=int, default=0)
     args = ap.parse_args(argv)
 
     import faulthandler
@@ -93,6 +94,8 @@ def part_main(argv: List[str]) -> int:
                         yield json.loads(line)
             return
         i = args.part
+        while i < args.first:
+            i += args.parts
         while i < args.runs:
             plan = engine.make_plan(run_seed_for(i), profile)
             plan["hashseed"] = hashseed
